@@ -188,11 +188,11 @@ func c17Units(c *Ctx, add *ssa.Function) {
 	const rule = "x is pushed as (Timestamp − began) / 1e6 (milliseconds) and read back as Duration(t × 1e6).Seconds(); y is Latency.Seconds() × 1000"
 	key := "unit-agreement:lib/plot"
 	iter := c.P.Func("lib/plot", "timeSeries.iter")
-	if iter == nil || len(iter.AnonFuncs) != 1 {
+	if returnedClosure(iter) == nil {
 		c.Undecided(key, rule, "timeSeries.iter closure not found")
 		return
 	}
-	c.Saw("function " + shortFn(iter.AnonFuncs[0]))
+	c.Saw("function " + shortFn(returnedClosure(iter)))
 	var div, mul int64
 	eachInstr(add, func(i ssa.Instruction) {
 		if bo, ok := i.(*ssa.BinOp); ok && bo.Op == token.QUO {
@@ -206,7 +206,7 @@ func c17Units(c *Ctx, add *ssa.Function) {
 			}
 		}
 	})
-	eachInstr(iter.AnonFuncs[0], func(i ssa.Instruction) {
+	eachInstr(returnedClosure(iter), func(i ssa.Instruction) {
 		if bo, ok := i.(*ssa.BinOp); ok && bo.Op == token.MUL {
 			if k, isK := constInt(bo.Y); isK {
 				for _, r := range refs(bo) {
